@@ -387,6 +387,15 @@ def run_case(arg):
                     r = rr
             res = {'name': q.name, 'verdict': str(r), 'solver_s': round(time.time() - t0, 2), 'desc': q.desc, 'confirm': q.confirm, 'role': q.role,
                    'graph_cases': nsub}
+            if r == z3.unsat and not out.get('cross_checks') and os.environ.get('ZX_CROSS', '1') != '0':
+                # second opinion on one discharged obligation per case (last graph sub-case): another z3 build on the SMT-LIB2 text
+                try:
+                    from .common import cross_check
+                    cc = cross_check(list(s.assertions()) + list(assumps), 'unsat', timeout_s=120, solvers=('z3-new',))
+                    cc['obligation'] = q.name
+                    out.setdefault('cross_checks', []).append(cc)
+                except Exception as e:   # pragma: no cover
+                    out.setdefault('cross_checks', []).append({'obligation': q.name, 'error': str(e)[:200], 'agree': None, 'results': {}})
             if r == z3.sat:
                 # prefer a counterexample the native replay can follow exactly
                 s.push()
